@@ -13,13 +13,30 @@ from pydsol.core.pubsub import EventListener, EventProducer, EventType, TimedEve
 _uid = itertools.count()
 
 
-def fresh_types(names):
-    """EventType names are registered process-wide (duplicates refused): make unique ones."""
-    n = next(_uid)
+def _def_A(nm):
+    return EventType(nm)
 
-    def VERIF_PS():
-        return {nm: EventType(f"{nm}_{n}") for nm in names}
-    return VERIF_PS()
+
+def _def_B(nm):
+    return EventType(nm)
+
+
+def _def_C(nm):
+    return EventType(nm)
+
+
+def _def_D(nm):
+    return EventType(nm)
+
+
+def fresh_types(names):
+    """EventType keys (defining scope + name) are registered process-wide, duplicates refused.
+    Distinct specification types are concretised as types that SHARE the human-readable name
+    and differ only in the defining scope (like Queue.CHANGED / Server.CHANGED): they must stay
+    distinct subscription keys."""
+    n = next(_uid)
+    defs = [_def_A, _def_B, _def_C, _def_D]
+    return {nm: defs[i % 4](f"EV_{n}_{i // 4}") for i, nm in enumerate(names)}
 
 
 class Mismatch(Exception):
